@@ -14,8 +14,9 @@ import multiprocessing
 from . import core
 
 KNOWN_FILE = os.path.join(core.VERIF, 'KNOWN_FINDINGS.txt')
-EVIDENCE_DIR = os.path.join(core.VERIF, 'evidence')
-REPLAY_DIR = os.path.join(core.VERIF, 'replays')
+# evaluations of seeded changes (VERIF_REPO=<scratch worktree>) must not overwrite the evidence of the real tree
+EVIDENCE_DIR = os.environ.get('VERIF_EVIDENCE_DIR') or os.path.join(core.VERIF, 'evidence')
+REPLAY_DIR = os.environ.get('VERIF_REPLAY_DIR') or os.path.join(core.VERIF, 'replays')
 NPROC = int(os.environ.get('VERIF_NPROC', '0')) or min(16, os.cpu_count() or 4)
 
 
